@@ -30,8 +30,9 @@ def Verdict.render : Verdict → String
 /-- run a parser on a token list, `PARSE` when it fails or leaves tokens -/
 def runP (p : P Verdict) (toks : List String) : Verdict :=
   match p toks with
-  | some (v, []) => v
-  | some (_, _ :: _) => .parse
+  | some (.ok nt, []) => .ok nt
+  | some (.ok _, _ :: _) => .parse
+  | some (v, _) => v     -- a failing verdict ends the case early; the rest of the line is not read
   | none => .parse
 
 /-! ### interner: ops over `Nat` values -/
@@ -47,27 +48,27 @@ def internerOps : Nat → Nat → Interner Nat → List Nat → Bool → P Verdi
       let id ← P.nat
       let m := it.internOrGet v
       let s := DL.intern spec v
-      if (m.1, m.2.1) != (ins, id) then
-        pure (.diff s!"op {k}: intern_or_get {v}: model ({m.1}, {m.2.1}) impl ({ins}, {id})")
-      else if (s.1, s.2.1) != (ins, id) then
+      if (s.1, s.2.1) != (ins, id) then
         pure (.specfail s!"op {k}: intern_or_get {v}: duplicate-free list gives ({s.1}, {s.2.1}), impl ({ins}, {id})")
+      else if (m.1, m.2.1) != (ins, id) then
+        pure (.diff s!"op {k}: intern_or_get {v}: model ({m.1}, {m.2.1}) impl ({ins}, {id})")
       else internerOps n (k + 1) m.2.2 s.2.2 (nt || !ins)
     | "g" => do
       let v ← P.nat
       let r ← P.opt P.nat
-      if it.get v != r then pure (.diff s!"op {k}: get {v}: model {it.get v} impl {r}")
-      else if DL.get spec v != r then pure (.specfail s!"op {k}: get {v}: list gives {DL.get spec v}, impl {r}")
+      if DL.get spec v != r then pure (.specfail s!"op {k}: get {v}: list gives {DL.get spec v}, impl {r}")
+      else if it.get v != r then pure (.diff s!"op {k}: get {v}: model {it.get v} impl {r}")
       else internerOps n (k + 1) it spec nt
     | "r" => do
       let sym ← P.nat
       let r ← P.opt P.nat
-      if it.resolve sym != r then pure (.diff s!"op {k}: resolve {sym}: model {it.resolve sym} impl {r}")
-      else if DL.resolve spec sym != r then pure (.specfail s!"op {k}: resolve {sym}: list gives {DL.resolve spec sym}, impl {r}")
+      if DL.resolve spec sym != r then pure (.specfail s!"op {k}: resolve {sym}: list gives {DL.resolve spec sym}, impl {r}")
+      else if it.resolve sym != r then pure (.diff s!"op {k}: resolve {sym}: model {it.resolve sym} impl {r}")
       else internerOps n (k + 1) it spec nt
     | "e" => do
       let l ← P.list P.nat
-      if it.elements != l then pure (.diff s!"op {k}: elements: model {it.elements} impl {l}")
-      else if spec != l then pure (.specfail s!"op {k}: elements: list {spec} impl {l}")
+      if spec != l then pure (.specfail s!"op {k}: elements: list {spec} impl {l}")
+      else if it.elements != l then pure (.diff s!"op {k}: elements: model {it.elements} impl {l}")
       else internerOps n (k + 1) it spec nt
     | _ => P.fail
 
@@ -89,27 +90,27 @@ def builderOps : Nat → Nat → Builder → List (Ty Nat) → Bool → P Verdic
       let id ← P.nat
       let m := b.registerType t
       let s := DL.intern spec t
-      if m.1 != id then pure (.diff s!"op {k}: register_type: model {m.1} impl {id}")
-      else if s.2.1 != id then pure (.specfail s!"op {k}: register_type: duplicate-free list gives {s.2.1}, impl {id}")
+      if s.2.1 != id then pure (.specfail s!"op {k}: register_type: duplicate-free list gives {s.2.1}, impl {id}")
+      else if m.1 != id then pure (.diff s!"op {k}: register_type: model {m.1} impl {id}")
       else builderOps n (k + 1) m.2 s.2.2 (nt || !s.1)
     | "next" => do
       let id ← P.nat
-      if b.nextTypeId != id then pure (.diff s!"op {k}: next_type_id: model {b.nextTypeId} impl {id}")
-      else if spec.length != id then pure (.specfail s!"op {k}: next_type_id: list length {spec.length}, impl {id}")
+      if spec.length != id then pure (.specfail s!"op {k}: next_type_id: list length {spec.length}, impl {id}")
+      else if b.nextTypeId != id then pure (.diff s!"op {k}: next_type_id: model {b.nextTypeId} impl {id}")
       else builderOps n (k + 1) b spec nt
     | "get" => do
       let i ← P.nat
       let r ← P.opt P.ty
-      if b.get i != r then pure (.diff s!"op {k}: get {i}: model {optTy (b.get i)} impl {optTy r}")
-      else if spec[i]? != r then pure (.specfail s!"op {k}: get {i}: list gives {optTy spec[i]?}, impl {optTy r}")
+      if spec[i]? != r then pure (.specfail s!"op {k}: get {i}: list gives {optTy spec[i]?}, impl {optTy r}")
+      else if b.get i != r then pure (.diff s!"op {k}: get {i}: model {optTy (b.get i)} impl {optTy r}")
       else builderOps n (k + 1) b spec nt
     | "fin" => do
       let reg ← P.registry
-      if b.finish != reg then pure (.diff s!"op {k}: finish: model {Show.registry b.finish} impl {Show.registry reg}")
-      else if reg.map (·.ty) != spec then pure (.specfail s!"op {k}: finish: does not list the values at their indices")
+      if reg.map (·.ty) != spec then pure (.specfail s!"op {k}: finish: does not list the values at their indices")
       else if !Spec.dense reg then pure (.specfail s!"op {k}: finish: C01 dense: some entry has id != index")
       else if spec.all (fun t => t.refs.all (· < spec.length)) && !Spec.wf reg then
         pure (.specfail s!"op {k}: finish: C01 closed: all registered references are below next_type_id but the registry is not closed")
+      else if b.finish != reg then pure (.diff s!"op {k}: finish: model {Show.registry b.finish} impl {Show.registry reg}")
       else builderOps n (k + 1) b spec nt
     | _ => P.fail
 
@@ -163,22 +164,23 @@ def path : P Verdict := do
     match res with
     | "panic" => pure (.specfail "from_segments panicked")
     | "em" =>
-      if model != .error .missingSegments then pure (.diff s!"model {showRes model} impl em")
-      else if spec != .error .missingSegments then pure (.specfail s!"spec {showRes spec} impl em")
+      if spec != .error .missingSegments then pure (.specfail s!"spec {showRes spec} impl em")
+      else if model != .error .missingSegments then pure (.diff s!"model {showRes model} impl em")
       else pure (.ok false)
     | "ei" => do
       let i ← P.nat
-      if model != .error (.invalidIdentifier i) then pure (.diff s!"model {showRes model} impl ei {i}")
-      else if spec != .error (.invalidIdentifier i) then pure (.specfail s!"spec {showRes spec} impl ei {i}")
+      if spec != .error (.invalidIdentifier i) then pure (.specfail s!"spec {showRes spec} impl ei {i}")
+      else if model != .error (.invalidIdentifier i) then pure (.diff s!"model {showRes model} impl ei {i}")
       else pure (.ok true)
     | "ok" => do
       let o ← pathObs
-      if model != .ok o.segs then pure (.diff s!"model {showRes model} impl ok {Show.list Show.str o.segs}")
-      else if spec != .ok o.segs then pure (.specfail s!"spec {showRes spec} impl ok {Show.list Show.str o.segs}")
+      if spec != .ok o.segs then pure (.specfail s!"spec {showRes spec} impl ok {Show.list Show.str o.segs}")
       else if o.segs != segs then pure (.specfail "segment order not kept")
       else match accessorsOk o with
         | some m => pure (.specfail m)
-        | none => pure (.ok true)
+        | none =>
+          if model != .ok o.segs then pure (.diff s!"model {showRes model} impl ok {Show.list Show.str o.segs}")
+          else pure (.ok true)
     | _ => P.fail
   | "new" => do
     let plain ← P.bool
@@ -194,17 +196,17 @@ def path : P Verdict := do
     let spec := specFromSegments want
     match res with
     | "panic" =>
-      if model != none then pure (.diff "model accepts, impl panics")
-      else match spec with
-        | .ok _ => pure (.specfail "every segment is an identifier but construction failed")
-        | .error _ => pure (.ok true)
+      match spec with
+      | .ok _ => pure (.specfail "every segment (after replacement) is an identifier but construction failed")
+      | .error _ => if model != none then pure (.diff "model accepts, impl panics") else pure (.ok true)
     | "ok" => do
       let o ← pathObs
-      if model != some o.segs then pure (.diff s!"model {Show.opt (Show.list Show.str) model} impl ok {Show.list Show.str o.segs}")
-      else if spec != .ok o.segs then pure (.specfail s!"spec {showRes spec} impl ok {Show.list Show.str o.segs}")
+      if spec != .ok o.segs then pure (.specfail s!"spec {showRes spec} impl ok {Show.list Show.str o.segs}")
       else match accessorsOk o with
         | some m => pure (.specfail m)
-        | none => pure (.ok true)
+        | none =>
+          if model != some o.segs then pure (.diff s!"model {Show.opt (Show.list Show.str) model} impl ok {Show.list Show.str o.segs}")
+          else pure (.ok true)
     | _ => P.fail
   | _ => P.fail
 
